@@ -33,10 +33,10 @@ import (
 )
 
 type c08Case struct {
-	WebUI  string `json:"webui"`  // pw | 2fa
+	WebUI  string `json:"webui"`  // pw | 2fa | pw-norm (user name normalisation on)
 	Actor  string `json:"actor"`  // plain | admin | admin-case | groupadmin | autoadmin | robot
 	Level  string `json:"level"`  // pw | pw+totp | pw+u2f | totp | u2f | cert
-	Target string `json:"target"` // self | other | missing
+	Target string `json:"target"` // self | other | missing | case-variant
 	Op     string `json:"op"`
 	Action string `json:"action"` // for manage ops
 	Index  string `json:"index"`  // valid | invalid | nan
@@ -73,14 +73,17 @@ func c08ActorUser(actor string) string {
 
 func c08Gen(t *rapid.T) c08Case {
 	c := c08Case{}
-	c.WebUI = rapid.SampledFrom([]string{"pw", "pw", "2fa"}).Draw(t, "webui")
+	c.WebUI = rapid.SampledFrom([]string{"pw", "pw", "2fa", "pw-norm"}).Draw(t, "webui")
 	c.Actor = rapid.SampledFrom([]string{"plain", "plain", "admin", "admin", "admin-case", "groupadmin", "autoadmin", "robot"}).Draw(t, "actor")
 	c.Level = rapid.SampledFrom([]string{"pw", "pw+totp", "pw+u2f", "totp", "u2f", "cert"}).Draw(t, "level")
-	c.Target = rapid.SampledFrom([]string{"self", "other", "other", "other", "missing"}).Draw(t, "target")
+	c.Target = rapid.SampledFrom([]string{"self", "other", "other", "other", "missing", "case-variant"}).Draw(t, "target")
 	c.Op = rapid.SampledFrom(c08Ops).Draw(t, "op")
 	c.Action = rapid.SampledFrom([]string{"Update", "Disable", "Enable", "Delete", "Bogus"}).Draw(t, "action")
 	c.Index = rapid.SampledFrom([]string{"valid", "valid", "valid", "invalid", "nan"}).Draw(t, "index")
 	c.Method = rapid.SampledFrom([]string{"POST", "POST", "POST", "GET"}).Draw(t, "method")
+	if c.WebUI == "pw-norm" && c.Actor == "admin-case" {
+		c.Actor = "plain" // with normalisation on, the case twin of the admin is not a separate identity
+	}
 	return c
 }
 
@@ -117,6 +120,12 @@ func c08World(webui string) *vWorld {
 		EnableBootstrapOTP:   true,
 		DisableNormalization: true,
 	}
+	if webui == "pw-norm" {
+		// the default: login names are normalised (lower-cased); accounts whose
+		// stored name differs only by case can still exist (created by an
+		// administrator or by certificate-authenticated tooling)
+		opts.DisableNormalization = false
+	}
 	if webui == "2fa" {
 		opts.WebUIBackends = []string{"U2F", "TOTP"}
 	}
@@ -141,9 +150,23 @@ func c08World(webui string) *vWorld {
 	return w
 }
 
+func c08CaseVariant(u string) string {
+	if v := strings.ToUpper(u[:1]) + u[1:]; v != u {
+		return v
+	}
+	return strings.ToLower(u)
+}
+
 // c08Reset puts the stored profiles into the known initial content.
 func c08Reset(w *vWorld) {
-	for _, u := range []string{vUserAlice, c08Other, c08Admin, c08AdminCase, c08GroupAdmin, c08AutoAdmin, vUserRobot} {
+	base := []string{vUserAlice, c08Other, c08Admin, c08AdminCase, c08GroupAdmin, c08AutoAdmin, vUserRobot}
+	all := append([]string{}, base...)
+	for _, u := range base {
+		if v := c08CaseVariant(u); v != c08Admin && v != c08AdminCase {
+			all = append(all, v)
+		}
+	}
+	for _, u := range all {
 		p := &userProfile{U2fAuthData: map[int64]*u2fAuthData{}, TOTPAuthData: map[int64]*totpAuthData{}}
 		name := "token-of-" + u
 		if u == c08Other {
@@ -210,6 +233,10 @@ func c08Check(c c08Case) *vResult {
 		}
 	case "missing":
 		target = "ghost"
+	case "case-variant":
+		// a distinct account whose name differs from the actor's only by case
+		// (user names are not normalised in this world)
+		target = c08CaseVariant(actor)
 	}
 	bits := map[string]int{"pw": AuthTypePassword, "pw+totp": AuthTypePassword | AuthTypeTOTP, "pw+u2f": AuthTypePassword | AuthTypeU2F,
 		"totp": AuthTypeTOTP, "u2f": AuthTypeU2F}[c.Level]
@@ -425,7 +452,11 @@ func c08GenCache(t *rapid.T) c08CacheCase {
 		if rapid.Bool().Draw(t, "early") {
 			c.Ops = append(c.Ops, c08CacheOp{Kind: "wait", WaitMs: rapid.SampledFrom([]int{0, 20}).Draw(t, "w")}, c08CacheOp{Kind: "query"})
 		}
-		c.Ops = append(c.Ops, c08CacheOp{Kind: "wait", WaitMs: 400}, c08CacheOp{Kind: "query"})
+		if rapid.IntRange(0, 2).Draw(t, "burst") == 0 {
+			c.Ops = append(c.Ops, c08CacheOp{Kind: "poll"})
+		} else {
+			c.Ops = append(c.Ops, c08CacheOp{Kind: "wait", WaitMs: 400}, c08CacheOp{Kind: "query"})
+		}
 	}
 	// the directory answers at the end
 	c.Ops = append(c.Ops, c08CacheOp{Kind: "outage", Down: false}, c08CacheOp{Kind: "wait", WaitMs: 400}, c08CacheOp{Kind: "query"})
@@ -510,6 +541,23 @@ func c08CheckCache(c c08CacheCase) *vResult {
 		case "wait":
 			time.Sleep(time.Duration(op.WaitMs) * time.Millisecond)
 			shape += "w"
+		case "poll":
+			// the account is in constant use: queries closer together than the cache
+			// lifetime, for longer than the lifetime
+			for k := 0; k < 6; k++ {
+				time.Sleep(90 * time.Millisecond)
+				got := w.state.IsAdminUser("gina")
+				settled := time.Since(lastChange) > c08CacheLifetime+100*time.Millisecond
+				if !down && settled {
+					nontrivial = true
+					if got != dirAdmin {
+						res.violate("stale-verdict", "op %d (query %d of a burst): directory answers, gina's groups %v for %.0fms (cache lifetime %v) but IsAdminUser=%v (history %s)", i, k, dirGroups, float64(time.Since(lastChange).Milliseconds()), c08CacheLifetime, got, shape)
+						break
+					}
+				}
+				lastVerdict, haveVerdict = got, true
+			}
+			shape += "p"
 		case "query":
 			got := w.state.IsAdminUser("gina")
 			settled := time.Since(lastChange) > c08CacheLifetime+100*time.Millisecond
@@ -533,6 +581,6 @@ func c08CheckCache(c c08CacheCase) *vResult {
 
 func TestVerifC08AdminCache(t *testing.T) {
 	vRunRapid(t,
-		"rapid: histories of 2-4 phases (change, optional early query, wait past the cache lifetime, query) over {set gina's groups to any subset of {admins, staff} incl. none, directory outage on/off, wait 0/20/400 ms, query} against a live local user directory and an admin cache of 250 ms standing in for the 5 minutes; verdict must equal the directory once content is older than the cache lifetime, and must not change during an outage; non-trivial = a query made while the directory answers and the cache lifetime has passed; distinct = history shape",
+		"rapid: histories of 2-4 phases (change, optional early query, wait past the cache lifetime, query) over {set gina's groups to any subset of {admins, staff} incl. none, directory outage on/off, wait 0/20/400 ms, query, burst of 6 queries 90 ms apart} against a live local user directory and an admin cache of 250 ms standing in for the 5 minutes; verdict must equal the directory once content is older than the cache lifetime, and must not change during an outage; non-trivial = a query made while the directory answers and the cache lifetime has passed; distinct = history shape",
 		c08GenCache, c08CheckCache)
 }
